@@ -180,9 +180,18 @@ func c26IRQCheck(c *Ctx) func(l *explore.Local, _ struct{}, cs c26IRQ) *explore.
 			g.parts.Mapper.Write(0xff06, 0x00)
 			g.parts.Mapper.Write(0xff05, uint8(0x100-n))
 			g.parts.Timer.VSetCounter(uint16((1024 - 4*first) % 1024))
-			g.parts.Mapper.Write(0xffff, 0x00)
-			g.parts.Mapper.Write(0xff0f, 0x00)
-			// the request is latched in IF whatever the master enable says (it alternates from position to position)
+			// the request is latched in IF whatever the master enable says (it alternates from position to position) and
+			// whatever else is waiting: every third position another source (serial, then joypad) is enabled in IE and
+			// already requested in IF, with the master enable clear so that nothing is dispatched
+			ie, ifv := uint8(0x00), uint8(0x00)
+			switch (k / cs.Step) % 6 {
+			case 2:
+				ie, ifv = 0x08, 0x08
+			case 4:
+				ie, ifv = 0x1b, 0x10
+			}
+			g.parts.Mapper.Write(0xffff, ie)
+			g.parts.Mapper.Write(0xff0f, ifv)
 			if (k/cs.Step)%2 == 0 {
 				g.parts.Interrupts.Disable()
 			} else {
@@ -191,7 +200,7 @@ func c26IRQCheck(c *Ctx) func(l *explore.Local, _ struct{}, cs c26IRQ) *explore.
 			g.frame(ctx)
 			l.Trans(1)
 			if g.parts.Mapper.Read(0xff0f)&0x04 == 0 {
-				return explore.Failf("a timer overflow during a frame does not raise the timer interrupt request", "overflow in machine cycle %d of the frame (master enable %v, IE=00): IF=%02x TIMA=%02x afterwards", k, (k/cs.Step)%2 != 0, g.parts.Mapper.Read(0xff0f), g.parts.Mapper.Read(0xff05))
+				return explore.Failf("a timer overflow during a frame does not raise the timer interrupt request", "overflow in machine cycle %d of the frame (master enable %v, IE=%02x, IF=%02x before the frame): IF=%02x TIMA=%02x afterwards", k, (k/cs.Step)%2 != 0, ie, ifv, g.parts.Mapper.Read(0xff0f), g.parts.Mapper.Read(0xff05))
 			}
 		}
 		// an overflow that is not caused by a counting step: the timer is stopped (TAC bit 2 cleared) while the selected
